@@ -40,6 +40,10 @@ def target(src, defs, mode, extra=()):
     srcp = os.path.join(VERIF, 'harness', src)
     h = hashlib.sha256()
     h.update(tree_hash().encode()); h.update(open(srcp, 'rb').read()); h.update(repr((sorted(defs), mode, tuple(extra))).encode())
+    import re as _re
+    for inc in _re.findall(r'#include "([^"]+)"', open(srcp).read()):      # headers living next to the harness source
+        ip = os.path.join(os.path.dirname(srcp), inc)
+        if os.path.exists(ip): h.update(open(ip, 'rb').read())
     key = h.hexdigest()[:16]
     name = os.path.splitext(src)[0] + '_' + '_'.join(d.replace('=', '-').replace('<', '').replace('>', '').replace(',', '-').replace(':', '') for d in defs)[:80] + '_' + mode + '_' + key
     out = os.path.join(WORK, 'bin', name)
